@@ -26,6 +26,7 @@ func runC15(c *Ctx) {
 	c.rule("U1", "loading succeeds only through Validate(): every possibly-nil return of LoadFromEnvironment follows configurationToSet.Validate() and returns its (wrapped) result; Load/LoadFromViper delegate to it", 3)
 	c.rule("U2", "source order in LoadFromEnvironment: MergeConfigMap(defaults) → configuration file → linkFlagKeysToStructureKeys → Unmarshal → Validate", 4)
 	c.rule("U3", "linkFlagKeysToStructureKeys: a set flag is written with Set(); the default of an unset flag is forced only where the structure key is empty", 2)
+	c.rule("U9", "the reporting side replaces the configuration key separator in the prefix too, like the session's key replacer", 1)
 	c.rule("U8", "ValidateEmbedded calls Validate() on every field of struct kind that implements Validator, whatever the field holds, and returns its error", 1)
 	c.rule("U6", "names with an empty prefix: prefix and separator are joined only where the prefix was found non-empty", 2)
 	c.rule("U7", "structure keys are linked to flag keys without prefix removal", 1)
@@ -284,7 +285,7 @@ func runC15(c *Ctx) {
 			}
 			uses := false
 			for _, e := range variadicElems(cl.Call.Args[1]) {
-				for _, l := range sources(e, deriveOpts{through: func(n string) bool { return strings.HasPrefix(n, "strings.") }}) {
+				for _, l := range sources(e, deriveOpts{through: func(n string) bool { return strings.Contains(n, "strings.") }}) {
 					if l == ssa.Value(prefix) {
 						uses = true
 					}
@@ -303,6 +304,39 @@ func runC15(c *Ctx) {
 		})
 	}
 	c.Extra["prefix_joins"] = nJoin
+
+	// ---- U9 -----------------------------------------------------------------
+	// The session's key replacer (configuration key separator → EnvVarSeparator) is applied by viper to the whole name it
+	// looks up, prefix included. The reporting side applies the same replacement to the prefix it puts in front.
+	{
+		replaced := false
+		allInstrs(det, func(in ssa.Instruction) {
+			cl, ok := in.(*ssa.Call)
+			if !ok || calleeFull(&cl.Call) != "(*strings.Replacer).Replace" || len(cl.Call.Args) < 2 {
+				return
+			}
+			fromPrefix := false
+			for _, l := range sources(cl.Call.Args[1], deriveOpts{through: func(n string) bool { return strings.Contains(n, "strings.") }}) {
+				if p, isP := l.(*ssa.Parameter); isP && p.Parent() == det {
+					fromPrefix = true
+				}
+			}
+			nr, isNR := cl.Call.Args[0].(*ssa.Call)
+			if !fromPrefix || !isNR || calleeFull(&nr.Call) != "strings.NewReplacer" {
+				return
+			}
+			els := variadicElems(nr.Call.Args[0])
+			if len(els) == 2 {
+				from, ok1 := constString(els[0])
+				to, ok2 := constString(els[1])
+				if ok1 && ok2 && to == envSep && from != "" && from != to {
+					replaced = true
+				}
+			}
+		})
+		c.check(replaced, "U9", "config/reported-prefix-replaced", c.pos(det.Pos()), "the key separator is replaced in the prefix of the reported names, as the session does when it looks a variable up",
+			"the prefix is put in front of the reported names as it is: with a prefix that contains the configuration key separator (\"my.app\") MY.APP_COUNT is reported whereas loading looks MY_APP_COUNT up")
+	}
 
 	// ---- U7 -----------------------------------------------------------------
 	// Structure keys never bear the prefix: linking them to the flag keys does not go through prefix removal.
